@@ -1510,12 +1510,19 @@ static void decode_case(Src &s, Case &c) {
   int nclass = s.pick({20, 20, 60, 70, 50, 36});
   if (cfg.stratum >= 0) { kind = (cfg.stratum / N_CLASSES) % K_COUNT; nclass = cfg.stratum % N_CLASSES; }
   if (cfg.thorough && nclass == 5 && s.below(4) == 0) nclass = 6;
+  if (cfg.param == "scale") nclass = 7;
   c.p.kind = kind;
   bool table_kind = kind == K_HHTFC || kind == K_HTFC;  // F06/F07: explored where they work
   c.S = gen_strings(s, nclass, cfg.thorough, c.gi, table_kind);
   bool clamp = cfg.prop == "C12" || cfg.prop == "C07";
   bool memalloc = cfg.prop == "C07";
   gen_params(s, c.p, c.S.size(), c.gi.total, clamp, memalloc);
+  if (cfg.param == "scale") {
+    // the default reservation unit, and mostly the smallest bucket size (more than 2^16 buckets)
+    c.p.memalloc = 32768;
+    if (c.p.bucket < 2 || s.byte() % 4 != 3) c.p.bucket = 2 + s.byte() % 3;
+    if (c.p.threads > 4) c.p.threads = 4;
+  }
   while (!s.exhausted()) c.opbytes.push_back(s.byte());
   if (cfg.thorough) c.cap = 1500;
 }
